@@ -231,6 +231,9 @@ def cross_rule_work(order):
 
 def replay(case):
     rule_name = case["rule"]
+    if case.get("routes"):
+        a = ruleinfo.route_work(rule_name)
+        return [p for ps in a.problems.values() for p in ps if core.jsonable(p["case"]) == case]
     if "cross_rule_order" in case:
         a = cross_rule_work(case["cross_rule_order"])
         return [p for ps in a.problems.values() for p in ps if core.jsonable(p["case"]) == case]
@@ -252,6 +255,7 @@ def explore(tier):
     tab = ruleinfo.table()
     accs = core.pmap(work, [(rn, tier) for rn in sorted(tab)])
     accs += core.pmap(cross_rule_work, ["forward", "reverse"])
+    accs += core.pmap(ruleinfo.route_work, sorted(tab))
     acc = core.merge_all(accs)
     per = acc.notes.pop("per_rule", {})
     n = acc.counts.get("assignments", 0)
